@@ -683,7 +683,13 @@ fn reparse_check(ctx: &Ctx, who: &str, qi: usize, r: &Relation, text: &str, c2: 
                         );
                     }
                 }
-                _ => probe(ctx, "semantic_skipped_engine_gap"),
+                (a, b) => {
+                    probe(ctx, "semantic_skipped_engine_gap");
+                    if std::env::var("VERIF_DEBUG").is_ok() {
+                        eprintln!("ENGINE-GAP-SQL {}", render_sim(r));
+                        eprintln!("ENGINE-GAP {} :: {:?} / {:?}", q, a.err().map(|e| e.chars().take(120).collect::<String>()), b.err().map(|e| e.chars().take(120).collect::<String>()));
+                    }
+                }
             }
         }
     }
